@@ -21,6 +21,28 @@ pub proof fn lemma_mul_cong(a: int, a2: int, b: int, b2: int, m: int)
     lemma_mul_mod_noop_general(a2, b2, m);
 }
 
+/// Reduction mod 2^bits is a ring homomorphism from Z/2^64: the low `bits` bits of a 64-bit
+/// product depend only on the low `bits` bits of the operands.  (Used by unit u6_jit: the JIT
+/// multiplies in 64-bit registers whatever the cell width, with sign-extended immediates.)
+pub proof fn lemma_mul_low_bits(x: int, y: int, a: int, b: int, bits: nat)
+    requires
+        bits <= 64,
+        x % (pow2(bits) as int) == a % (pow2(bits) as int),
+        y % (pow2(bits) as int) == b % (pow2(bits) as int),
+    ensures
+        ((x * y) % (pow2(64) as int)) % (pow2(bits) as int) == (a * b) % (pow2(bits) as int),
+{
+    let m = pow2(bits) as int;
+    let k = pow2((64 - bits) as nat) as int;
+    lemma_pow2_pos(bits);
+    lemma_pow2_pos((64 - bits) as nat);
+    lemma_pow2_adds(bits, (64 - bits) as nat);
+    assert(pow2(64) as int == m * k);
+    lemma_mod_mod(x * y, m, k);
+    lemma_mul_mod_noop_general(x, y, m);
+    lemma_mul_mod_noop_general(a, b, m);
+}
+
 pub proof fn lemma_pow_mod(b: int, e: nat, m: int)
     requires m > 0
     ensures pow(b % m, e) % m == pow(b, e) % m
